@@ -175,6 +175,10 @@ func emitCompare(f *Function, op token.Token, x, y Value, source ast.Node) Value
 
 	if types.Identical(xt, yt) {
 		// no conversion necessary
+	} else if isNonTypeParamInterface(x.Type()) && isNonTypeParamInterface(y.Type()) && !types.AssignableTo(y.Type(), x.Type()) {
+		// Two distinct interface types: only one direction need be assignable;
+		// a ChangeInterface must go from the assignable type to the other.
+		x = emitConv(f, x, y.Type(), source)
 	} else if _, ok := xt.(*types.Interface); ok && !typeparams.IsTypeParam(x.Type()) {
 		y = emitConv(f, y, x.Type(), source)
 	} else if _, ok := yt.(*types.Interface); ok && !typeparams.IsTypeParam(y.Type()) {
